@@ -1005,6 +1005,15 @@ impl Xot {
     /// ```
     pub fn parse_bytes(&mut self, bytes: &[u8]) -> Result<Node, ParseError> {
         let xml = decode(bytes, None);
+        // the decoder has taken the byte order mark off: a second one is a
+        // character in front of the document, which the tokenizer would
+        // skip as if it were the first
+        if xml.starts_with('\u{feff}') {
+            return Err(ParseError::XmlParser(
+                xmlparser::Error::UnknownToken(xmlparser::TextPos::new(1, 1)),
+                0,
+            ));
+        }
         self.parse(&xml)
     }
 }
